@@ -15,6 +15,11 @@ CHECKS = {
    "Every interleaving (2 clients: unbounded; 3 clients: preemption-bounded) of the real ObjectStoreMetadataClient mutation paths, incl. create races, legacy-fallback reads, conflict/retry and retry exhaustion; every catalog version checked for chunk-map/time-index agreement; final state must equal a real-time-consistent sequential order of exactly the Ok operations.",
    "InMemory object store's conditional PUT is atomic; one request = one atomic step; tokio back-off timers fire eagerly (no shared-state access between wake-up and next request)",
    "DESIGN.md section 5 C02"),
+ "C03": (ENGINE_A, "model_checking",
+   "stateless model checking of the real Compactor: exhaustive DFS over schedules of 1-2 compactor nodes at object-store-request / catalog-call granularity with preemption bound, plus one crash, injected error (before/after effect) or lease expiry placed at every point",
+   "Real Compactor::run_compaction_cycle over real Parquet chunks (rows carry unique ids) on both catalog back ends: one compactor x every single fault position x {before, after}; one/two compactors x every crash point (restart runs a fresh cycle); two compactors x all interleavings within 2 (3) preemptions, x lease expiry (+301 s) anywhere. After EVERY transition: nothing queryable became unqueryable and every listed object exists; at the end: reachable id multiset == original, each once; merged chunk level = max(replaced)+1, levels never decrease.",
+   "duplicates tolerated while a compaction is in flight; crash = abort at a quiescent point; the lease-renewal task gets a horizon of 1 request per execution; no state caching (tasks share memory the fingerprint cannot see)",
+   "DESIGN.md section 5 C03"),
  "C05": (ENGINE_B, "model_checking",
    "explicit-state search (BFS with deduplication on directory image + reference state) over WAL operation histories executed on the real WriteAheadLog, with crash images derived from directory snapshots; every byte offset of the final crash enumerated",
    "All histories up to depth 3 (quick) / 5 (thorough) over append small/large, truncate_before, persist_flushed_seq, reopen and crash-during-operation (structural cuts) for three segment limits (rotate every entry, two entries per segment, never); from every distinct state every byte offset of a crash during append / truncate / flushed_seq write is followed by reopen-check-append-reopen-check against a reference log: exactly the complete entries, in order, once; sequence numbers above everything acknowledged.",
@@ -30,6 +35,11 @@ CHECKS = {
    "Every interleaving of acquire/renew/complete/fail/scavenge by 2 nodes (3 in thorough, preemption-bounded) combined with every placement of <=2 (3) wall-clock jumps (+150 s, +301 s); invariants at every quiescent state: no lease-file version holds two live leases sharing a chunk, no two holders believe they hold a shared chunk, a reclaimed holder's renew is refused, abandoned leases are acquirable after expiry; also on the in-memory client at call granularity.",
    "all nodes read the same interposed wall clock; InMemory conditional PUT is atomic; holder belief after renew = wall clock at the renew call + 300 s (what the caller can know)",
    "DESIGN.md section 5 C08"),
+ "C20": (ENGINE_B, "model_checking",
+   "explicit enumeration of every initial catalog x configuration of a bounded family, each driven through repeated real compaction cycles with the invariant checked between cycles",
+   "All catalogs with 0..3/2/2/1 (thorough 0..4/3/4/3) chunks at L0 hour A / L0 hour B / L1 / L2 x merge threshold {2,3} x level target size {1 B, ~2 chunks, ~100 chunks} x max_levels {2,4} x both back ends: a fixed point is reached within 8 cycles, candidate groups offered before each cycle are pairwise disjoint and level-homogeneous, groups actually merged (leases) are disjoint and of the lease's level, every level equals max(replaced)+1 or stays, rows conserved.",
+   "one compactor, fault-free, frozen clock; in-memory levels tracked from observed merges",
+   "DESIGN.md section 5 C20"),
  "C13": (ENGINE_A, "model_checking",
    "stateless model checking of the real code: exhaustive DFS over all interleavings of 2-3 nodes' shard-metadata updates/creations at object-store-request granularity with state caching; plus exhaustive update histories of the router cache",
    "Every interleaving of 1-2 update_shard_metadata calls per node (expected generation equal, stale, ahead; shard absent or at generation 2) on the object-store client (request granularity) and the in-memory client (call granularity); oracle: one winner per base generation, generations form the chain g0+1.., every version ever written carries the next generation, stored content belongs to the last winner; ShardRouter: all update sequences up to depth 5/7 never lower the cached generation.",
